@@ -20,6 +20,8 @@ func init() {
 	gen, impl, oracle, key := p.Gen, p.Impl, p.Oracle, p.FindingKey
 	p.Gen = func(tier string, rng *rand.Rand, emit func(Case)) {
 		gen(tier, rng, emit)
+		lastOfFormat := map[string]string{}
+		nSets := 0
 		for _, kind := range []string{"params", "row"} {
 			kind := kind
 			c := codecRegistry[kind]
@@ -36,6 +38,19 @@ func init() {
 				}
 				if c.SpecEnc != nil {
 					emit(Case{Line: "pkg spec " + kind + " " + fields, Kind: "package-leg:spec:" + kind})
+					// result sets: rows of one format with different values, read one after the other
+					if c.CtxFor != nil {
+						if ctx := string(c.CtxFor(strings.Fields(fields))); ctx != "" {
+							if prev, ok := lastOfFormat[kind+ctx]; ok && prev != fields && nSets < 4000 {
+								nSets++
+								emit(Case{Line: "pkg rows " + kind + " " + prev + " ;; " + fields, Kind: "package-leg:rows:" + kind})
+								if nSets%3 == 0 {
+									emit(Case{Line: "pkg rows " + kind + " " + fields + " ;; " + prev + " ;; " + fields, Kind: "package-leg:rows:" + kind})
+								}
+							}
+							lastOfFormat[kind+ctx] = fields
+						}
+					}
 				}
 			})
 		}
@@ -47,6 +62,31 @@ func init() {
 		return impl(line)
 	}
 	p.Oracle = func(line, out string) string {
+		if strings.HasPrefix(line, "pkg rows ") {
+			f := strings.Fields(line)
+			c := codecRegistry[f[2]]
+			if c == nil {
+				return ""
+			}
+			if out == "panic" || out == "timeout" {
+				return "no codec panics or hangs on a valid package"
+			}
+			wireNorms()
+			var want []string
+			cur := []string{}
+			for _, t := range append(f[3:], ";;") {
+				if t == ";;" {
+					want = append(want, strings.Join(normFields(c, cur), " "))
+					cur = []string{}
+					continue
+				}
+				cur = append(cur, t)
+			}
+			if out != "ok "+strings.Join(want, " ;; ") {
+				return "every row of a result set keeps the values it was sent with (read one after the other, looked at afterwards)"
+			}
+			return ""
+		}
 		if strings.HasPrefix(line, "pkg ") {
 			return c06Oracle(line, out)
 		}
@@ -61,7 +101,7 @@ func init() {
 	}
 	noModel := p.NoModel
 	p.NoModel = func(line string) bool {
-		if strings.HasPrefix(line, "pkg spec ") || strings.HasPrefix(line, "pkg specdec ") {
+		if strings.HasPrefix(line, "pkg spec ") || strings.HasPrefix(line, "pkg specdec ") || strings.HasPrefix(line, "pkg rows ") {
 			return true
 		}
 		return noModel != nil && noModel(line)
